@@ -36,7 +36,14 @@ fn path_set(phys: &VfsPath) -> Vec<String> {
         all.insert(format!("{}/a", p));
     }
     // canonical only: no "", ".", ".." components (join would resolve them anyway)
-    all.into_iter().filter(|p| p.is_empty() || p[1..].split('/').all(|c| !c.is_empty() && c != "." && c != "..")).collect()
+    all.into_iter()
+        .filter(|p| {
+            p.is_empty()
+                || p[1..]
+                    .split('/')
+                    .all(|c| !c.is_empty() && c != "." && c != "..")
+        })
+        .collect()
 }
 
 fn tmodel(s: &Snap) -> crate::model::Model {
@@ -62,18 +69,43 @@ fn run_fixture(label: &str, emb: VfsPath, phys: VfsPath, depth: usize, out: &mut
     let se = snapshot(&emb, &probes);
     let sp = snapshot(&phys, &probes);
     if let Some(m) = &se.panic {
-        out.vio.push(mk("observer-panic".into(), format!("an observer panicked on the embedded filesystem: {}", m)));
+        out.vio.push(mk(
+            "observer-panic".into(),
+            format!("an observer panicked on the embedded filesystem: {}", m),
+        ));
         // find the culprit path by path
         for p in &paths {
             for (name, r) in [
-                ("exists", guard(|| at(&emb, p).and_then(|x| PathApi::exists(&x)).is_ok())),
-                ("metadata", guard(|| at(&emb, p).and_then(|x| PathApi::metadata(&x)).is_ok())),
-                ("read_dir", guard(|| at(&emb, p).and_then(|x| PathApi::read_dir(&x)).is_ok())),
-                ("open_file", guard(|| at(&emb, p).and_then(|x| x.read_all()).is_ok())),
-                ("read_to_string", guard(|| at(&emb, p).and_then(|x| PathApi::read_to_string(&x)).is_ok())),
+                (
+                    "exists",
+                    guard(|| at(&emb, p).and_then(|x| PathApi::exists(&x)).is_ok()),
+                ),
+                (
+                    "metadata",
+                    guard(|| at(&emb, p).and_then(|x| PathApi::metadata(&x)).is_ok()),
+                ),
+                (
+                    "read_dir",
+                    guard(|| at(&emb, p).and_then(|x| PathApi::read_dir(&x)).is_ok()),
+                ),
+                (
+                    "open_file",
+                    guard(|| at(&emb, p).and_then(|x| x.read_all()).is_ok()),
+                ),
+                (
+                    "read_to_string",
+                    guard(|| {
+                        at(&emb, p)
+                            .and_then(|x| PathApi::read_to_string(&x))
+                            .is_ok()
+                    }),
+                ),
             ] {
                 if let Err(m) = r {
-                    out.vio.push(mk(format!("{}|{}|panic", name, pclass(&sp, p)), format!("{}({:?}) panicked: {}", name, p, m)));
+                    out.vio.push(mk(
+                        format!("{}|{}|panic", name, pclass(&sp, p)),
+                        format!("{}({:?}) panicked: {}", name, p, m),
+                    ));
                 }
             }
         }
@@ -89,66 +121,145 @@ fn run_fixture(label: &str, emb: VfsPath, phys: VfsPath, depth: usize, out: &mut
         };
         let mut diff = vec![];
         if e.exists != q.exists {
-            diff.push(format!("exists {:?} vs {:?}", e.exists.as_ref().map_err(|x| x.kind), q.exists.as_ref().map_err(|x| x.kind)));
+            diff.push(format!(
+                "exists {:?} vs {:?}",
+                e.exists.as_ref().map_err(|x| x.kind),
+                q.exists.as_ref().map_err(|x| x.kind)
+            ));
         }
         if e.meta.as_ref().ok() != q.meta.as_ref().ok() {
-            diff.push(format!("metadata {:?} vs {:?}", e.meta.as_ref().ok(), q.meta.as_ref().ok()));
+            diff.push(format!(
+                "metadata {:?} vs {:?}",
+                e.meta.as_ref().ok(),
+                q.meta.as_ref().ok()
+            ));
         }
         if e.is_file != q.is_file || e.is_dir != q.is_dir {
-            diff.push(format!("is_file/is_dir {:?}/{:?} vs {:?}/{:?}", e.is_file.as_ref().ok(), e.is_dir.as_ref().ok(), q.is_file.as_ref().ok(), q.is_dir.as_ref().ok()));
+            diff.push(format!(
+                "is_file/is_dir {:?}/{:?} vs {:?}/{:?}",
+                e.is_file.as_ref().ok(),
+                e.is_dir.as_ref().ok(),
+                q.is_file.as_ref().ok(),
+                q.is_dir.as_ref().ok()
+            ));
         }
-        let set = |l: &R<Vec<String>>| l.as_ref().ok().map(|v| v.iter().cloned().collect::<BTreeSet<_>>());
+        let set = |l: &R<Vec<String>>| {
+            l.as_ref()
+                .ok()
+                .map(|v| v.iter().cloned().collect::<BTreeSet<_>>())
+        };
         if set(&e.list) != set(&q.list) {
             diff.push(format!("read_dir {:?} vs {:?}", set(&e.list), set(&q.list)));
         }
         if e.content.as_ref().ok() != q.content.as_ref().ok() {
-            diff.push(format!("bytes {:?} vs {:?}", e.content.as_ref().ok().map(|b| b.len()), q.content.as_ref().ok().map(|b| b.len())));
+            diff.push(format!(
+                "bytes {:?} vs {:?}",
+                e.content.as_ref().ok().map(|b| b.len()),
+                q.content.as_ref().ok().map(|b| b.len())
+            ));
         }
         // missing from an existing directory => not-found
         if cls == "absent" {
-            for (n, r) in [("metadata", e.meta.as_ref().err()), ("read_dir", e.list.as_ref().err()), ("open_file", e.content.as_ref().err())] {
+            for (n, r) in [
+                ("metadata", e.meta.as_ref().err()),
+                ("read_dir", e.list.as_ref().err()),
+                ("open_file", e.content.as_ref().err()),
+            ] {
                 if let Some(err) = r {
                     if err.kind != Kind::NotFound {
-                        diff.push(format!("{} of a missing entry failed with {} instead of not-found", n, err.kind.name()));
+                        diff.push(format!(
+                            "{} of a missing entry failed with {} instead of not-found",
+                            n,
+                            err.kind.name()
+                        ));
                     }
                 }
             }
         }
         if !diff.is_empty() {
-            out.vio.push(mk(format!("observers-differ|{}", cls), format!("{:?} ({}): embedded vs physical: {}", p, cls, diff.join("; "))));
+            out.vio.push(mk(
+                format!("observers-differ|{}", cls),
+                format!(
+                    "{:?} ({}): embedded vs physical: {}",
+                    p,
+                    cls,
+                    diff.join("; ")
+                ),
+            ));
         }
         // read_to_string, walk_dir
         out.evals += 2;
         let rs_e = guard(|| at(&emb, p).and_then(|x| PathApi::read_to_string(&x)));
         let rs_p = at(&phys, p).and_then(|x| PathApi::read_to_string(&x));
         match rs_e {
-            Err(m) => out.vio.push(mk(format!("read_to_string|{}|panic", cls), format!("read_to_string({:?}) panicked: {}", p, m))),
+            Err(m) => out.vio.push(mk(
+                format!("read_to_string|{}|panic", cls),
+                format!("read_to_string({:?}) panicked: {}", p, m),
+            )),
             Ok(r) => {
                 if r.as_ref().ok() != rs_p.as_ref().ok() {
-                    out.vio.push(mk(format!("read_to_string|{}", cls), format!("read_to_string({:?}): {:?} vs {:?}", p, r.as_ref().map_err(|e| e.kind), rs_p.as_ref().map_err(|e| e.kind))));
+                    out.vio.push(mk(
+                        format!("read_to_string|{}", cls),
+                        format!(
+                            "read_to_string({:?}): {:?} vs {:?}",
+                            p,
+                            r.as_ref().map_err(|e| e.kind),
+                            rs_p.as_ref().map_err(|e| e.kind)
+                        ),
+                    ));
                 }
             }
         }
-        let wk = |root: &VfsPath| -> Result<R<Vec<String>>, String> { guard(|| at(root, p).and_then(|x| x.walk()).map(|v| v.into_iter().map(|i| i.map(|c| c.as_string()).unwrap_or_else(|_| "<ERR>".into())).collect())) };
+        let wk = |root: &VfsPath| -> Result<R<Vec<String>>, String> {
+            guard(|| {
+                at(root, p).and_then(|x| x.walk()).map(|v| {
+                    v.into_iter()
+                        .map(|i| i.map(|c| c.as_string()).unwrap_or_else(|_| "<ERR>".into()))
+                        .collect()
+                })
+            })
+        };
         match (wk(&emb), wk(&phys)) {
-            (Err(m), _) => out.vio.push(mk(format!("walk_dir|{}|panic", cls), format!("walk_dir({:?}) panicked: {}", p, m))),
+            (Err(m), _) => out.vio.push(mk(
+                format!("walk_dir|{}|panic", cls),
+                format!("walk_dir({:?}) panicked: {}", p, m),
+            )),
             (Ok(a), Ok(b)) => {
-                let sa = a.as_ref().ok().map(|v| v.iter().cloned().collect::<BTreeSet<_>>());
-                let sb = b.as_ref().ok().map(|v| v.iter().cloned().collect::<BTreeSet<_>>());
+                let sa = a
+                    .as_ref()
+                    .ok()
+                    .map(|v| v.iter().cloned().collect::<BTreeSet<_>>());
+                let sb = b
+                    .as_ref()
+                    .ok()
+                    .map(|v| v.iter().cloned().collect::<BTreeSet<_>>());
                 if sa != sb {
-                    out.vio.push(mk(format!("walk_dir|{}", cls), format!("walk_dir({:?}): {:?} vs {:?}", p, sa, sb)));
+                    out.vio.push(mk(
+                        format!("walk_dir|{}", cls),
+                        format!("walk_dir({:?}): {:?} vs {:?}", p, sa, sb),
+                    ));
                 }
                 if let Ok(items) = &a {
-                    let pos: BTreeMap<&String, usize> = items.iter().enumerate().map(|(i, x)| (x, i)).collect();
+                    let pos: BTreeMap<&String, usize> =
+                        items.iter().enumerate().map(|(i, x)| (x, i)).collect();
                     if pos.len() != items.len() {
-                        out.vio.push(mk(format!("walk_dir-duplicates|{}", cls), format!("walk_dir({:?}) yields duplicates: {:?}", p, items)));
+                        out.vio.push(mk(
+                            format!("walk_dir-duplicates|{}", cls),
+                            format!("walk_dir({:?}) yields duplicates: {:?}", p, items),
+                        ));
                     }
                     for it in items {
                         let par = parent_of(it);
                         if par != *p {
                             if let (Some(i), Some(j)) = (pos.get(it), pos.get(&par)) {
                                 if j > i {
-                                    out.vio.push(mk("walk_dir-child-before-parent".into(), format!("walk_dir({:?}) yields {:?} before {:?}", p, it, par)));
+                                    out.vio.push(mk(
+                                        "walk_dir-child-before-parent".into(),
+                                        format!(
+                                            "walk_dir({:?}) yields {:?} before {:?}",
+                                            p, it, par
+                                        ),
+                                    ));
                                 }
                             }
                         }
@@ -160,7 +271,13 @@ fn run_fixture(label: &str, emb: VfsPath, phys: VfsPath, depth: usize, out: &mut
     }
     let tree_diff = crate::snapshot::diff_model(&se, &model, &probes);
     if se.panic.is_none() && !tree_diff.is_empty() {
-        out.vio.push(mk("tree-differs".into(), format!("embedded tree differs from the folder: {}", tree_diff.join("; "))));
+        out.vio.push(mk(
+            "tree-differs".into(),
+            format!(
+                "embedded tree differs from the folder: {}",
+                tree_diff.join("; ")
+            ),
+        ));
     }
     // ---- reader scripts on every embedded file
     for p in &paths {
@@ -184,7 +301,14 @@ fn run_fixture(label: &str, emb: VfsPath, phys: VfsPath, depth: usize, out: &mut
             let mut eh = match eh {
                 Ok(Ok(h)) => h,
                 other => {
-                    out.vio.push(mk("open-existing-file".into(), format!("open_file({:?}) on an embedded file: {:?}", p, other.map(|r| r.map(|_| ()).map_err(|e| e.to_string())))));
+                    out.vio.push(mk(
+                        "open-existing-file".into(),
+                        format!(
+                            "open_file({:?}) on an embedded file: {:?}",
+                            p,
+                            other.map(|r| r.map(|_| ()).map_err(|e| e.to_string()))
+                        ),
+                    ));
                     break;
                 }
             };
@@ -194,7 +318,13 @@ fn run_fixture(label: &str, emb: VfsPath, phys: VfsPath, depth: usize, out: &mut
                 let want = crate::handle::do_rstep_pub(&mut cur, s);
                 let got = crate::handle::do_rstep_pub(eh.as_mut(), s);
                 if want != got {
-                    out.vio.push(mk(format!("reader|{:?}", s), format!("reader of {:?}: script {:?}: {:?} vs cursor {:?}", p, script, got, want)));
+                    out.vio.push(mk(
+                        format!("reader|{:?}", s),
+                        format!(
+                            "reader of {:?}: script {:?}: {:?} vs cursor {:?}",
+                            p, script, got, want
+                        ),
+                    ));
                     break;
                 }
             }
@@ -216,41 +346,179 @@ fn run_fixture(label: &str, emb: VfsPath, phys: VfsPath, depth: usize, out: &mut
         let sib = at(&emb, &format!("{}/copy-target", parent_of(p))).unwrap();
         // (name, result, must_be_not_supported, may_be_ok)
         let calls: Vec<(&str, Result<R<()>, String>, bool, bool)> = vec![
-            ("create_dir", guard(|| e.create_dir().map_err(|x| einfo(&x))), parent_dir, false),
-            ("create_dir_all", guard(|| e.create_dir_all().map_err(|x| einfo(&x))), false, p.is_empty()),
-            ("create_file", guard(|| PathApi::write_file(&e, b"w")), parent_dir && !model.is_dir(p), false),
-            ("append_file", guard(|| PathApi::append(&e, b"w")), model.is_file(p), false),
-            ("remove_file", guard(|| e.remove_file().map_err(|x| einfo(&x))), model.is_file(p), false),
-            ("remove_dir", guard(|| e.remove_dir().map_err(|x| einfo(&x))), model.is_dir(p) && !p.is_empty(), false),
-            ("remove_dir_all", guard(|| e.remove_dir_all().map_err(|x| einfo(&x))), model.is_dir(p) && !p.is_empty(), !model.exists(p)),
-            ("set_creation_time", guard(|| e.set_creation_time(t).map_err(|x| einfo(&x))), model.exists(p), false),
-            ("set_modification_time", guard(|| e.set_modification_time(t).map_err(|x| einfo(&x))), model.exists(p), false),
-            ("set_access_time", guard(|| e.set_access_time(t).map_err(|x| einfo(&x))), model.exists(p), false),
-            ("copy_file(inside)", guard(|| e.copy_file(&sib).map_err(|x| einfo(&x))), model.is_file(p), false),
-            ("move_file(inside)", guard(|| e.move_file(&sib).map_err(|x| einfo(&x))), model.is_file(p), false),
-            ("copy_dir(inside)", guard(|| e.copy_dir(&sib).map(|_| ()).map_err(|x| einfo(&x))), model.is_dir(p) && !p.is_empty(), false),
-            ("move_dir(inside)", guard(|| e.move_dir(&sib).map_err(|x| einfo(&x))), model.is_dir(p) && !p.is_empty(), false),
-            ("copy_file(from outside)", guard(|| mem.join("src").unwrap().copy_file(&e).map_err(|x| einfo(&x))), parent_dir && !model.exists(p), false),
-            ("move_file(from outside)", guard(|| mem.join("src").unwrap().move_file(&e).map_err(|x| einfo(&x))), parent_dir && !model.exists(p), false),
-            ("copy_dir(from outside)", guard(|| mem.join("srcdir").unwrap().copy_dir(&e).map(|_| ()).map_err(|x| einfo(&x))), parent_dir && !model.exists(p), false),
-            ("copy_file(to outside)", guard(|| e.copy_file(&outp).map_err(|x| einfo(&x))), false, model.is_file(p)),
-            ("move_file(to outside)", guard(|| e.move_file(&mem.join(format!("mv{}", n_out)).unwrap()).map_err(|x| einfo(&x))), model.is_file(p), false),
+            (
+                "create_dir",
+                guard(|| e.create_dir().map_err(|x| einfo(&x))),
+                parent_dir,
+                false,
+            ),
+            (
+                "create_dir_all",
+                guard(|| e.create_dir_all().map_err(|x| einfo(&x))),
+                false,
+                p.is_empty(),
+            ),
+            (
+                "create_file",
+                guard(|| PathApi::write_file(&e, b"w")),
+                parent_dir && !model.is_dir(p),
+                false,
+            ),
+            (
+                "append_file",
+                guard(|| PathApi::append(&e, b"w")),
+                model.is_file(p),
+                false,
+            ),
+            (
+                "remove_file",
+                guard(|| e.remove_file().map_err(|x| einfo(&x))),
+                model.is_file(p),
+                false,
+            ),
+            (
+                "remove_dir",
+                guard(|| e.remove_dir().map_err(|x| einfo(&x))),
+                model.is_dir(p) && !p.is_empty(),
+                false,
+            ),
+            (
+                "remove_dir_all",
+                guard(|| e.remove_dir_all().map_err(|x| einfo(&x))),
+                model.is_dir(p) && !p.is_empty(),
+                !model.exists(p),
+            ),
+            (
+                "set_creation_time",
+                guard(|| e.set_creation_time(t).map_err(|x| einfo(&x))),
+                model.exists(p),
+                false,
+            ),
+            (
+                "set_modification_time",
+                guard(|| e.set_modification_time(t).map_err(|x| einfo(&x))),
+                model.exists(p),
+                false,
+            ),
+            (
+                "set_access_time",
+                guard(|| e.set_access_time(t).map_err(|x| einfo(&x))),
+                model.exists(p),
+                false,
+            ),
+            (
+                "copy_file(inside)",
+                guard(|| e.copy_file(&sib).map_err(|x| einfo(&x))),
+                model.is_file(p),
+                false,
+            ),
+            (
+                "move_file(inside)",
+                guard(|| e.move_file(&sib).map_err(|x| einfo(&x))),
+                model.is_file(p),
+                false,
+            ),
+            (
+                "copy_dir(inside)",
+                guard(|| e.copy_dir(&sib).map(|_| ()).map_err(|x| einfo(&x))),
+                model.is_dir(p) && !p.is_empty(),
+                false,
+            ),
+            (
+                "move_dir(inside)",
+                guard(|| e.move_dir(&sib).map_err(|x| einfo(&x))),
+                model.is_dir(p) && !p.is_empty(),
+                false,
+            ),
+            (
+                "copy_file(from outside)",
+                guard(|| {
+                    mem.join("src")
+                        .unwrap()
+                        .copy_file(&e)
+                        .map_err(|x| einfo(&x))
+                }),
+                parent_dir && !model.exists(p),
+                false,
+            ),
+            (
+                "move_file(from outside)",
+                guard(|| {
+                    mem.join("src")
+                        .unwrap()
+                        .move_file(&e)
+                        .map_err(|x| einfo(&x))
+                }),
+                parent_dir && !model.exists(p),
+                false,
+            ),
+            (
+                "copy_dir(from outside)",
+                guard(|| {
+                    mem.join("srcdir")
+                        .unwrap()
+                        .copy_dir(&e)
+                        .map(|_| ())
+                        .map_err(|x| einfo(&x))
+                }),
+                parent_dir && !model.exists(p),
+                false,
+            ),
+            (
+                "copy_file(to outside)",
+                guard(|| e.copy_file(&outp).map_err(|x| einfo(&x))),
+                false,
+                model.is_file(p),
+            ),
+            (
+                "move_file(to outside)",
+                guard(|| {
+                    e.move_file(&mem.join(format!("mv{}", n_out)).unwrap())
+                        .map_err(|x| einfo(&x))
+                }),
+                model.is_file(p),
+                false,
+            ),
         ];
         for (name, r, must_ns, may_ok) in calls {
             out.evals += 1;
-            *out.classes.entry(format!("{}:{}:{}", name, cls, match &r { Ok(Ok(())) => "Ok".to_string(), Ok(Err(e)) => format!("Err({})", e.kind.name()), Err(_) => "Panic".to_string() })).or_insert(0) += 1;
+            *out.classes
+                .entry(format!(
+                    "{}:{}:{}",
+                    name,
+                    cls,
+                    match &r {
+                        Ok(Ok(())) => "Ok".to_string(),
+                        Ok(Err(e)) => format!("Err({})", e.kind.name()),
+                        Err(_) => "Panic".to_string(),
+                    }
+                ))
+                .or_insert(0) += 1;
             match r {
-                Err(m) => out.vio.push(mk(format!("{}|{}|panic", name, cls), format!("{} on {:?} panicked: {}", name, p, m))),
+                Err(m) => out.vio.push(mk(
+                    format!("{}|{}|panic", name, cls),
+                    format!("{} on {:?} panicked: {}", name, p, m),
+                )),
                 Ok(Ok(())) => {
                     if !may_ok {
-                        out.vio.push(mk(format!("{}|{}|accepted", name, cls), format!("{} on {:?} ({}) returned Ok on a read-only filesystem", name, p, cls)));
+                        out.vio.push(mk(
+                            format!("{}|{}|accepted", name, cls),
+                            format!(
+                                "{} on {:?} ({}) returned Ok on a read-only filesystem",
+                                name, p, cls
+                            ),
+                        ));
                     }
                 }
                 Ok(Err(e)) => {
                     if must_ns && e.kind != Kind::NotSupported {
                         out.vio.push(mk(format!("{}|{}|kind={}", name, cls, e.kind.name()), format!("{} on {:?} ({}) was refused with {} ({}) although its ordinary preconditions hold; expected not-supported", name, p, cls, e.kind.name(), e.display)));
                     }
-                    for (k, w) in crate::tree::errpath_violations(&e, p, Some(&format!("{}/copy-target", parent_of(p)))) {
+                    for (k, w) in crate::tree::errpath_violations(
+                        &e,
+                        p,
+                        Some(&format!("{}/copy-target", parent_of(p))),
+                    ) {
                         if !name.contains("outside") {
                             out.vio.push(mk(format!("{}|{}|{}", name, cls, k), w));
                         }
@@ -260,16 +528,32 @@ fn run_fixture(label: &str, emb: VfsPath, phys: VfsPath, depth: usize, out: &mut
             if name == "copy_file(to outside)" && model.is_file(p) {
                 let got = PathApi::read_all(&outp).ok();
                 if got != sp.entries[p].content.clone().ok() {
-                    out.vio.push(mk("copy-out-bytes".into(), format!("copying {:?} out of the embedded filesystem produced different bytes", p)));
+                    out.vio.push(mk(
+                        "copy-out-bytes".into(),
+                        format!(
+                            "copying {:?} out of the embedded filesystem produced different bytes",
+                            p
+                        ),
+                    ));
                 }
             }
         }
     }
     let after = snapshot(&emb, &probes);
     if !before.same_tree(&after) || after.panic.is_some() {
-        out.vio.push(mk("mutator-changed-something".into(), "the observable snapshot of the embedded filesystem changed after the mutating calls".into()));
+        out.vio.push(mk(
+            "mutator-changed-something".into(),
+            "the observable snapshot of the embedded filesystem changed after the mutating calls"
+                .into(),
+        ));
     }
-    println!("  [fixture {}] paths={} evaluations so far={} violations so far={}", label, paths.len(), out.evals, out.vio.len());
+    println!(
+        "  [fixture {}] paths={} evaluations so far={} violations so far={}",
+        label,
+        paths.len(),
+        out.evals,
+        out.vio.len()
+    );
 }
 
 fn pclass(s: &Snap, p: &str) -> String {
@@ -278,10 +562,26 @@ fn pclass(s: &Snap, p: &str) -> String {
 
 pub fn run_c18(ctx: &Ctx) -> i32 {
     let info = ctx.info("C18", "model_checking");
-    let mut out = Out { evals: 0, vio: vec![], classes: BTreeMap::new() };
+    let mut out = Out {
+        evals: 0,
+        vio: vec![],
+        classes: BTreeMap::new(),
+    };
     let depth = if ctx.tier == Tier::Thorough { 3 } else { 2 };
-    run_fixture("harness fixture", VfsPath::new(EmbeddedFS::<Fixture>::new()), VfsPath::new(PhysicalFS::new("/verif/mc/fixtures/embed")), depth, &mut out);
-    run_fixture("repo test_directory", VfsPath::new(EmbeddedFS::<RepoFixture>::new()), VfsPath::new(PhysicalFS::new("/repo/test/test_directory")), depth, &mut out);
+    run_fixture(
+        "harness fixture",
+        VfsPath::new(EmbeddedFS::<Fixture>::new()),
+        VfsPath::new(PhysicalFS::new("/verif/mc/fixtures/embed")),
+        depth,
+        &mut out,
+    );
+    run_fixture(
+        "repo test_directory",
+        VfsPath::new(EmbeddedFS::<RepoFixture>::new()),
+        VfsPath::new(PhysicalFS::new("/repo/test/test_directory")),
+        depth,
+        &mut out,
+    );
     let vio = crate::handle::dedupe(out.vio);
     let cov = json!({
         "states": 2,
@@ -299,9 +599,25 @@ pub fn run_c18(ctx: &Ctx) -> i32 {
 
 /// Every operation on every path of both fixtures; only panics are returned (C13).
 pub fn panic_sweep() -> (u64, Vec<Violation>) {
-    let mut out = Out { evals: 0, vio: vec![], classes: BTreeMap::new() };
-    run_fixture("harness fixture", VfsPath::new(EmbeddedFS::<Fixture>::new()), VfsPath::new(PhysicalFS::new("/verif/mc/fixtures/embed")), 2, &mut out);
-    run_fixture("repo test_directory", VfsPath::new(EmbeddedFS::<RepoFixture>::new()), VfsPath::new(PhysicalFS::new("/repo/test/test_directory")), 2, &mut out);
+    let mut out = Out {
+        evals: 0,
+        vio: vec![],
+        classes: BTreeMap::new(),
+    };
+    run_fixture(
+        "harness fixture",
+        VfsPath::new(EmbeddedFS::<Fixture>::new()),
+        VfsPath::new(PhysicalFS::new("/verif/mc/fixtures/embed")),
+        2,
+        &mut out,
+    );
+    run_fixture(
+        "repo test_directory",
+        VfsPath::new(EmbeddedFS::<RepoFixture>::new()),
+        VfsPath::new(PhysicalFS::new("/repo/test/test_directory")),
+        2,
+        &mut out,
+    );
     let v = out
         .vio
         .into_iter()
